@@ -1,7 +1,7 @@
 (* C09 — flattened(), update() and add_bundle() conserve records.
    Statements only; proofs in theories/WorldProofs.v, InterpProofs.v. *)
 From Coq Require Import String List Arith.
-From Prov Require Import Str Sexp Tables Nsm NsmProofs Values Record RecordProofs World Interp WorldProofs InterpProofs IdemProofs ReaddProofs.
+From Prov Require Import Str Sexp Tables Nsm NsmProofs Values Record RecordProofs World Interp WorldProofs InterpProofs WInvUProofs IdemProofs ReaddProofs GoodProofs Derive UpdateProofs.
 Import ListNotations.
 Open Scope string_scope.
 
@@ -69,6 +69,64 @@ Print Assumptions C09_add_record_attributes.
 Theorem C09_record_pairs_held : forall r p, In p (record_pairs r) ->
   In (snd p) (attr_get (fst p) (rattrs r)) \/ exists k vs, In (k, vs) (rattrs r) /\ fst p = k /\ In (snd p) vs.
 Proof. exact record_pairs_held. Qed.
+
+(* flattened(): the records of the result are, in order, the images of the document's own records followed by
+   the records of all its bundles — same kind, same identifier URI, the images of the same attribute values;
+   nothing is dropped, invented or duplicated (the multiset statement of the property, with order) *)
+Theorem C09_flattened_records : forall w d dd h,
+  get_doc w d = Some dd -> dbundles dd <> [] ->
+  (forall r0, In r0 (brecs (dmain dd) ++ flat_map (fun kb => brecs (snd kb)) (dbundles dd))%list ->
+     forall p, In p (record_pairs r0) -> good_pair (wft w) p) ->
+  snd (step w (OFlattened d)) = RHandle h ->
+  exists nd, get_doc (fst (step w (OFlattened d))) h = Some nd /\ dbundles nd = [] /\
+    Forall2 (image_of (wft w))
+            (brecs (dmain dd) ++ flat_map (fun kb => brecs (snd kb)) (dbundles dd))%list
+            (brecs (dmain nd)).
+Proof. exact flattened_images. Qed.
+Print Assumptions C09_flattened_records.
+(* the same without hypothesis for every document of every reachable world *)
+Theorem C09_flattened_records_reachable : forall ft ops d dd h,
+  let w := wrun ft ops in
+  get_doc w d = Some dd -> dbundles dd <> [] ->
+  snd (step w (OFlattened d)) = RHandle h ->
+  exists nd, get_doc (fst (step w (OFlattened d))) h = Some nd /\ dbundles nd = [] /\
+    Forall2 (image_of (wft w))
+            (brecs (dmain dd) ++ flat_map (fun kb => brecs (snd kb)) (dbundles dd))%list
+            (brecs (dmain nd)).
+Proof. exact reachable_flattened_images. Qed.
+Print Assumptions C09_flattened_records_reachable.
+
+(* the same for any list of records added to a container (update(), the constructor's records argument) *)
+Theorem C09_add_records : forall par ft rs b b',
+  InvU (bns b) -> (forall r0, In r0 rs -> forall p, In p (record_pairs r0) -> good_pair ft p) ->
+  add_records par ft b rs = (b', OK tt) ->
+  exists rs', brecs b' = (brecs b ++ rs')%list /\ Forall2 (image_of ft) rs rs' /\ InvU (bns b').
+Proof. exact add_records_images. Qed.
+
+(* ---- update(): the bundles of the other document.  merge_bundles is the loop of ProvDocument.update over
+   other.bundles.  (1) the document's own records are not touched by it; (2) every bundle the document had
+   stays at its place under its key and identifier and only gains records at the end; (3) every bundle of the
+   other document lands in the bundle of the same identifier (created when missing) as the images of its
+   records, in order, as one block. *)
+Theorem C09_update_main_untouched : forall ft bs dd dd' r, merge_bundles ft dd bs = (dd', r) ->
+  brecs (dmain dd') = brecs (dmain dd).
+Proof. exact merge_bundles_main_recs. Qed.
+
+Theorem C09_update_bundles_kept : forall ft bs dd dd' r, merge_bundles ft dd bs = (dd', r) ->
+  forall j k tb, nth_error (dbundles dd) j = Some (k, tb) ->
+  exists tb', nth_error (dbundles dd') j = Some (k, tb') /\ extends tb tb'.
+Proof. exact merge_bundles_keeps. Qed.
+Print Assumptions C09_update_bundles_kept.
+
+Theorem C09_update_bundles_land : forall ft bs dd dd',
+  DInv dd -> (forall k sb, In (k, sb) bs -> good_recs ft (brecs sb)) ->
+  merge_bundles ft dd bs = (dd', OK tt) ->
+  forall k0 sb, In (k0, sb) bs ->
+  exists sid i tb' pre rs' post,
+    bid sb = Some sid /\ nth_error (dbundles dd') i = Some (qn_uri sid, tb') /\
+    brecs tb' = (pre ++ rs' ++ post)%list /\ Forall2 (image_of ft) (brecs sb) rs'.
+Proof. exact merge_bundles_images. Qed.
+Print Assumptions C09_update_bundles_land.
 
 (* full statement not yet proved: the re-created record carries the same attribute
    name URIs and the same strict values (needs idempotence of normalisation on
